@@ -541,6 +541,50 @@ def run(tier, seed, replay):
             ndis += 1
             if first is None:
                 first = {"case": c, "model": m, "impl": vals}
+    # objects that are not square (ket-, bra- or rectangular-valued): adjoint and transpose have the shape of their value,
+    # compose with the original, and a number cannot be added; an object added to itself is twice itself
+    try:
+        import qutip
+        for shp in ((3, 1), (1, 3), (2, 3)):
+            A0 = qutip.Qobj(np.arange(shp[0] * shp[1]).reshape(shp) + 1j)
+            A1 = qutip.Qobj((np.arange(shp[0] * shp[1]).reshape(shp) % 3) * 1j + 2)
+            R = qutip.QobjEvo([A0, [A1, "t + 1j"]])
+            rep.evaluations += 1
+            rep.count("non-square")
+            for nm_, Rx, ref_ in (("dag", R.dag(), lambda X: X.conj().T), ("trans", R.trans(), lambda X: X.T)):
+                tt = 0.7
+                want = ref_(R(tt).full())
+                if tuple(Rx.shape) != want.shape or Rx(tt).full().shape != want.shape or np.abs(Rx(tt).full() - want).max() > 1e-12:
+                    rep.violation(core.Violation(f"C05:non-square-{nm_}", f"{nm_}() of a {shp[0]}x{shp[1]}-valued QobjEvo reports the shape {tuple(Rx.shape)} (value shape {want.shape}) or the wrong value", {"shape": list(shp)}))
+                    continue
+                if shp[0] != 1 and shp[1] != 1 or nm_ == "dag":
+                    try:
+                        if shp[1] != 1 or True:
+                            prod_ = (R @ Rx)(tt).full() if nm_ == "dag" and shp[0] != 1 else None      # 1x1-valued products are scalars, not objects
+                            if prod_ is not None and np.abs(prod_ - R(tt).full() @ want).max() > 1e-9:
+                                rep.violation(core.Violation("C05:non-square-product", f"Q @ Q.dag() of a {shp[0]}x{shp[1]}-valued QobjEvo is not the product of the values", {"shape": list(shp)}))
+                        st_ = qutip.Qobj(np.eye(want.shape[1]))
+                        mm_ = Rx.matmul(tt, st_).full()
+                        if np.abs(mm_ - want).max() > 1e-9:
+                            rep.violation(core.Violation(f"C05:non-square-matmul-{nm_}", f"Q.{nm_}().matmul(t, 1) of a {shp[0]}x{shp[1]}-valued QobjEvo is not its value", {"shape": list(shp)}))
+                    except Exception as e:
+                        rep.violation(core.Violation(f"C05:non-square-{nm_}-raises", f"using {nm_}() of a {shp[0]}x{shp[1]}-valued QobjEvo: {type(e).__name__}: {e}"[:240], {"shape": list(shp)}))
+            for nm_, fn_ in (("Q + 1", lambda: R + 1), ("1 + Q", lambda: 1 + R), ("Q - 2", lambda: R - 2)):
+                try:
+                    fn_()
+                    rep.violation(core.Violation("C05:non-square-plus-number", f"{nm_} for a {shp[0]}x{shp[1]}-valued QobjEvo is accepted", {"shape": list(shp)}))
+                except (TypeError, ValueError):
+                    pass
+        with core.time_limit(60):
+            Qs_ = qutip.QobjEvo([qutip.sigmaz(), [qutip.sigmax(), "t"]])
+            Vs_ = Qs_(0.9).full()
+            Qs_ += Qs_
+            if np.abs(Qs_(0.9).full() - 2 * Vs_).max() > 1e-12:
+                rep.violation(core.Violation("C05:iadd-self", "Q += Q does not give twice Q", {}))
+    except core.CaseTimeout:
+        rep.violation(core.Violation("C05:iadd-self-hangs", "Q += Q does not return (it appends to the list of terms it is walking through)", {}))
+    except Exception as e:
+        rep.violation(core.Violation("C05:non-square-raises", f"{type(e).__name__}: {e}"[:300], {}))
     # pickled objects (what worker processes receive) with sampled coefficients on grids that are uniform only within the
     # tolerance of the uniformity detection - linspace with a non-zero start, a slowly drifting clock, float32 time stamps:
     # the unpickled object is the same function, at the samples, next to them and in between
